@@ -347,6 +347,8 @@ def run_pool(
             results.append(val)
             if on_result:
                 on_result(val)
+            if len(items) >= 200 and len(results) % max(1, len(items) // 10) == 0:
+                print(f"  progress: {len(results)}/{len(items)} scenarios, {time.monotonic() - t0:.0f}s", file=sys.stderr, flush=True)
             submit_more()
     return results, skipped
 
